@@ -3,6 +3,6 @@
 P=$1; PATCH=$2; TIER=${3:-quick}
 cd /repo && [ -z "$(git status --porcelain --untracked-files=no)" ] || { echo "REPO-DIRTY: commit or stash first"; exit 7; }
 cd /repo && git apply $PATCH || { echo APPLY-FAIL; exit 9; }
-cd /verif && timeout 3000 ./check $P --tier $TIER --no-evidence > /tmp/seedcheck_$P.log 2>&1; rc=$?
+cd /verif && timeout 3000 ./check $P --tier $TIER --no-evidence $EXTRA > /tmp/seedcheck_$P.log 2>&1; rc=$?
 cd /repo && git checkout -- . 
 echo "exit=$rc $(grep -c '^VIOLATION' /tmp/seedcheck_$P.log) violations; $(grep -m2 'harness=' /tmp/seedcheck_$P.log | cut -c1-220 | tr '\n' '|')"
